@@ -168,6 +168,7 @@ def handle (st : St) (ws : List String) : St × String :=
 
 ```
 gx def <id> <name>:<tag name|~>:<options|->:<embedded 0|1>:<zero>:<kind>:<tag>,…    (`-` = no extra fields)           -> ok
+gx build <id>                                      the methods generated for the definition compile  -> ok
 gx new <reg> <id> <name> <msg> <src> V:<s>,… I:<n>,…   extension factory + plain GError with the same base -> ok
 gx call <dst> <reg> <Method> <site> F:<s> P:<s>,.. S:<frames> E:<elems>
                                                    same call on both -> <obs ext> | <obs base> | v=<s>,…
@@ -200,6 +201,12 @@ def handleX (st : XSt) (ws : List String) : XSt × String :=
     match id.toNat?, (if spec == "-" then some [] else (spec.splitOn ",").mapM decField) with
     | some id, some d => ({ st with defs := (id, d) :: st.defs.filter (fun p => p.1 != id) }, "ok")
     | _, _ => (st, "bad-op")
+  | ["build", id] =>
+    -- every definition of the domain yields a type with all methods (C13 `gerror_derivers_declared_once`);
+    -- nothing in the model depends on the names or types of the extra fields
+    match id.toNat? with
+    | some id => if st.defs.any (fun p => p.1 == id) then (st, "ok") else (st, "bad-def")
+    | none => (st, "bad-op")
   | ["new", r, id, n, m, s, v, _idx] =>
     match r.toNat?, id.toNat?, dec n, dec m, dec s, (field "V:" v).bind decList with
     | some r, some id, some n, some m, some s, some vs =>
